@@ -20,25 +20,35 @@ def _auth_wrapper(q):
         e = "".join("%%%02X" % b for b in ch.encode("utf-8"))
         return e.lower() if lower else e
 
+    import unicodedata
+
     cps = [c for c in range(0x80, 0x110000) if not (0xD800 <= c < 0xE000)]
+    # the other two spellings: every code point with a compatibility form of its own (all the candidates), the
+    # ranges safely_quote_qsl is probed on, the UTF-8 length boundaries
+    some = sorted(
+        set(c for c in cps if unicodedata.normalize("NFKC", chr(c)) != chr(c))
+        | set(range(0x80, 0x3100))
+        | set(c for c in range(0x3100, 0x110000, 61) if not (0xD800 <= c < 0xE000))
+        | {0x7FF, 0x800, 0xFFFF, 0x10000, 0x10FFFF}
+    )
     sep = ","
     # one call per spelling on the whole range (the characters are separated by an ASCII comma, which neither
-    # function touches): escaped upper-case, escaped lower-case, raw
+    # function touches): escaped upper-case (every code point), escaped lower-case, raw
     spellings = [
-        sep.join(esc(chr(c)) for c in cps),
-        sep.join(esc(chr(c), True) for c in cps),
-        sep.join(chr(c) for c in cps),
+        (cps, sep.join(esc(chr(c)) for c in cps)),
+        (some, sep.join(esc(chr(c), True) for c in some)),
+        (some, sep.join(chr(c) for c in some)),
     ]
     requoted = None
     shape = True
-    for sp in spellings:
+    for pts, sp in spellings:
         a, b = f(sp).split(sep), inner(sp).split(sep)
-        if len(a) != len(cps) or len(b) != len(cps):
+        if len(a) != len(pts) or len(b) != len(pts):
             shape = False
             break
-        diff = [c for c, x, y in zip(cps, a, b) if x != y]
+        diff = [c for c, x, y in zip(pts, a, b) if x != y]
         # where the two differ the public function gives the upper-case escapes
-        shape = shape and all(x == esc(chr(c)) for c, x, y in zip(cps, a, b) if x != y)
+        shape = shape and all(x == esc(chr(c)) for c, x, y in zip(pts, a, b) if x != y)
         if requoted is None:
             requoted = diff
         elif requoted != diff:
@@ -55,8 +65,9 @@ def _auth_wrapper(q):
     ok = shape and ctx and requoted == table
     return [
         "/-- the non-ASCII code points `safely_unquote_auth_item` keeps escaped (as the upper-case escapes of their",
-        "UTF-8 bytes; given escaped in either case, or raw) while `partial(unquote, …)` of the same configuration decodes",
-        "them — probed on the real function, every code point U+0080–U+10FFFF -/",
+        "UTF-8 bytes) while `partial(unquote, …)` of the same configuration decodes them — probed on the real function, every",
+        "code point U+0080–U+10FFFF written with upper-case escapes; with lower-case escapes and raw: every code point that",
+        "has a compatibility form of its own, U+0080–U+30FF, every 61st code point above -/",
         "def authItemRequotedCodes : List Nat := %s" % lean_nat_list(requoted),
         "/-- `safely_unquote_auth_item` is the partial followed by the re-quoting of the characters `urlsplit` refuses in",
         "a netloc for their NFKC form (FX-C01-NFKCUSERINFO): the probed set above is the table observed on the running",
